@@ -240,6 +240,7 @@ type Op struct {
 	Raw   []string // protocol lines computed at execution time (facts)
 	Sites []PatchSite
 	CopySlot []int // patch: copy descriptor slot [0] over slot [1] (resolved at execution)
+	SwapSlots []int // patch: exchange descriptor slots [0] and [1] byte for byte (resolved at execution)
 	Cli       *CliOp // C15: one siftool invocation
 	CliExists bool   // the image file existed before it
 	IO    bool // C09: the model is asked for the operation's I/O plan (`io` lines)
